@@ -188,6 +188,18 @@ func runDetStream(c *runCtx) {
 			}
 		}
 	}
+	// every byte-order mark followed by one and two bytes of the steering alphabet (a mark is a mark whatever follows:
+	// FF FE 00 xx is UTF-16LE text that starts with a U+xx00 character, not half of the UTF-32 mark)
+	for _, bm := range [][]byte{{0xEF, 0xBB, 0xBF}, {0xFE, 0xFF}, {0xFF, 0xFE}, {0x00, 0x00, 0xFE, 0xFF}, {0xFF, 0xFE, 0x00, 0x00}} {
+		c.obsCase("bom", bm, 3072)
+		for _, a := range al {
+			c.obsCase("bom", cat(bm, []byte{a}), 3072)
+			for _, b := range al {
+				c.obsCase("bom", cat(bm, []byte{a, b}), 3072)
+				c.obsCase("bom", cat(bm, []byte{a, b, 'x', 0}), 3072)
+			}
+		}
+	}
 	if f := limitStress(250 * time.Millisecond); f != "" {
 		c.propfail("C01", f)
 	}
